@@ -17,8 +17,9 @@ def run(ctx):
     F = ctx.F
     res = RuleResult('R-ENCFORM', 'DataCount only when needed; MVP element encoding for table 0; block-type forms kept')
     res.floor = 3
-    nop = Policy(effects=lambda p: not p.startswith('std::') and not p.startswith('log::'), inline=lambda p: False)
     p = 'module::data::ModuleData::emit_data_count'
+    from heval import local_policy
+    nop = local_policy(F, p, public_events=True)
     if p not in F.hir:
         res.error('anchor lost: emit_data_count')
         return res
@@ -34,7 +35,13 @@ def run(ctx):
         ups = [e for e in w.trace if e['kind'] == 'loop_update']
         emitted = any(e['kind'] == 'call' and e['callee'].endswith('wasm_encoder::Module::section') and 'DataCountSection' in show(e['args'][1])
                       for e in w.trace)
-        atoms = [(k[1], v) for k, v in w.assumptions if isinstance(k, tuple) and k[0] == 'atom']
+        atoms = []
+        for k, v in w.assumptions:
+            if isinstance(k, tuple) and k[0] == 'atom':
+                t = k[1]
+                while isinstance(t, tuple) and t[0] == 'un' and t[1] == 'Not':
+                    t, v = t[2], (not v)
+                atoms.append((t, v))
         if not ups:
             if emitted:
                 res.bad('datacount/no-segments', 'a DataCount section is emitted for a module without data segments')
